@@ -60,6 +60,8 @@ def tagbytes(tag, size):
 class Sys:
     """One configuration: the real buffer + the specification + the live set."""
 
+    want = "C12"
+
     def __init__(self, cfg, seed=0):
         kind, cap0, al, gs = cfg
         self.cfg = cfg
@@ -68,6 +70,7 @@ class Sys:
         self.live = []  # [off, size, tag]
         self.al = al
         self.n = seed % 97
+        self.model_ok = True  # False once implementation and specification disagreed: only the invariants of C04 are judged afterwards
 
     def events(self):
         evs = []
@@ -106,11 +109,11 @@ class Sys:
             if cap < cap_before:
                 bad("C12.capacity-monotone", "capacity-shrinks", (cap_before, cap))
                 return False
-            fit_before = m.first_fit(size, a)
+            fit_before = m.first_fit(size, a) if self.model_ok else None
             grew = cap != cap_before
-            if grew and fit_before is not None:
+            if self.model_ok and grew and fit_before is not None:
                 bad("C12.grow-only-if-needed", "grow-though-fit", dict(fit=fit_before, cap=(cap_before, cap)))
-                ok = False
+                self.model_ok = False
             m.extend(cap)
             # C04 invariants on the returned region
             if not (isinstance(off, int) or hasattr(off, "__index__")):
@@ -127,15 +130,18 @@ class Sys:
                 if size > 0 and s2 > 0 and off < o2 + s2 and o2 < off + size:
                     bad("C04.disjoint", "overlaps-live", dict(new=(off, size), live=(o2, s2)))
                     return False
-            if size > 0:
+            if not self.model_ok:
+                pass
+            elif size > 0:
                 fit = m.first_fit(size, a)
                 if fit is None:
                     bad("C12.first-fit", "served-without-free-space", dict(off=off, size=size))
-                    return False
-                if fit[1] != off:
+                    self.model_ok = False
+                elif fit[1] != off:
                     bad("C12.first-fit", "placement", dict(got=off, spec=fit[1], size=size, alignment=a, free_runs=m.runs()))
-                    return False
-                m.take(fit[0], off, size, len(self.live) + 1)
+                    self.model_ok = False
+                else:
+                    m.take(fit[0], off, size, len(self.live) + 1)
             else:
                 # a zero-size request can be held by any address (also by an empty free chunk): its placement
                 # is not compared; only the padding it skips inside a free run is accounted as lost
@@ -155,7 +161,8 @@ class Sys:
             except Exception as e:
                 bad("C12.free-never-fails", "free-raises:" + common.exc_failure(e), repr(e))
                 return False
-            m.release(r[0], r[1])
+            if self.model_ok:
+                m.release(r[0], r[1])
             if b.capacity != cap_before:
                 bad("C12.capacity-monotone", "free-changes-capacity", (cap_before, b.capacity))
                 return False
@@ -185,17 +192,18 @@ class Sys:
         except Exception as e:
             bad("C12.accounting", "get_free-raises:" + common.exc_failure(e), repr(e))
             return False
-        if gf != m.free_total():
+        if self.model_ok and gf != m.free_total():
             bad("C12.accounting", "free-total", dict(reported=int(gf), spec=m.free_total(), live=[(o, s) for o, s, _ in self.live], lost=m.lost_total(), cap=b.capacity))
-            ok = False
-        return ok
+            self.model_ok = False
+        return ok and (self.model_ok or self.want == "C04")
 
     def key(self):
-        return (snapshot(self.b), tuple((o, s) for o, s, _ in self.live))
+        return (snapshot(self.b), tuple((o, s) for o, s, _ in self.live), self.model_ok)
 
 
-def build(cfg, hist, seed):
+def build(cfg, hist, seed, want="C12"):
     s = Sys(cfg, seed)
+    s.want = want
     for ev in hist:
         s.step(ev)
     return s
@@ -204,7 +212,7 @@ def build(cfg, hist, seed):
 def explore(cfg, depth, seed, res, want, lookahead=True):
     """BFS over histories of `cfg` up to `depth`, plus one allocate-only look-ahead layer."""
     feats = dict(kind=cfg[0], cap0=cfg[1], alignment=cfg[2], grow_step=cfg[3])
-    seen = {build(cfg, [], seed).key()}
+    seen = {build(cfg, [], seed, want).key()}
     res.states += 1
     res.cases += 1
     frontier = [[]]
@@ -227,12 +235,12 @@ def explore(cfg, depth, seed, res, want, lookahead=True):
         nf = []
         last = d == depth
         for hist in frontier:
-            s0 = build(cfg, hist, seed)
+            s0 = build(cfg, hist, seed, want)
             evs = s0.events()
             if last:
                 evs = [e for e in evs if e[0] == "alloc"]
             for ev in evs:
-                s = build(cfg, hist, seed)
+                s = build(cfg, hist, seed, want)
                 problems = []
                 cont = s.step(ev, problems)
                 res.transitions += 1
